@@ -118,7 +118,7 @@ func main() {
 
 	// ---- random large inputs, biased to ties (equal weights, weights with common factors), zero
 	//      weights and > 12 buckets (where the sort is no longer stable)
-	n := c.Budget(6000, 400000)
+	n := c.Budget(6000, 200000)
 	for i := 0; i < n; i++ {
 		var nb int
 		switch r.Intn(4) {
@@ -180,7 +180,7 @@ func main() {
 
 	// ---- the minimum increment expression MaxInt(1, NewDecFromInt(old).Mul(inc).RoundInt())
 	incs := []string{"0", "0.000000000000000001", "0.05", "0.1", "0.5", "0.333333333333333333", "1", "0.049999999999999999", "2.5"}
-	m := c.Budget(3000, 200000)
+	m := c.Budget(3000, 100000)
 	for i := 0; i < m; i++ {
 		inc := sdk.MustNewDecFromStr(incs[r.Intn(len(incs))])
 		var old *big.Int
